@@ -51,13 +51,18 @@ def generate(seed, tier, prop):
             "state": scfg,
             "data": dcfg,
             "train": tc,
-            "optimizer": r.choice(["sgd", "sgd", "sgd", "sgd_momentum", "adam"]) if prop == "C06" else "sgd",
+            # "default": optimizer= not passed at all; "sgd_plain": the genuine torch.optim.SGD class is passed
+            # (both observed only through callbacks); the others are recording subclasses of real optimizers
+            "optimizer": r.choice(["sgd", "sgd", "sgd", "sgd_momentum", "adam", "default", "default", "sgd_plain"]) if prop == "C06" else r.choice(["sgd", "default"]),
             "scheduler": r.choice([None, None, "step", "exp"]) if prop == "C06" else None,
             "gamma": r.choice([0.5, 0.9]),
             "rng_mode": r.choice(["honest", "honest", "rare"]),
             "perm_mode": r.choice(["honest", "honest", "honest", "identity", "reverse", "transpose"]),
             "randint_mode": r.choice(["honest", "honest", "honest", "allequal"]),
-            "second_fit": r.random() < 0.25,
+            "second_fit": r.random() < 0.3,
+            # what the caller does between the two training runs
+            "between": r.choice(["none", "none", "reinit", "randomise", "refill_data"]),
+            "between_seed": P.s64(r),
         },
         "faults": faults,
     }
@@ -72,7 +77,7 @@ def execute(plan, prop):
     from qsim.seams.public import BatchCapture, OptRecorder, recording_optimizer, recording_scheduler
     from qsim.seams.rng import RngSeam
     from qsim.train import run_fit
-    from qsim.world import build_data, build_state, params_snapshot
+    from qsim.world import build_data, build_state, params_snapshot, randomise
 
     run = Run(plan)
     cfg = plan["config"]
@@ -116,9 +121,40 @@ def execute(plan, prop):
             if fi > 0:
                 # a second training run on the same state (new optimizer, history continues)
                 state.stop_training = False
+                btw = cfg.get("between", "none")
+                if btw == "reinit":
+                    rng.stream(cfg.get("between_seed", 1))
+                    state.reinitialize_parameters()
+                elif btw == "randomise":
+                    randomise(state, cfg.get("between_seed", 1), scfg.get("scale", 1.0))
+                elif btw == "refill_data":
+                    # the caller refills ITS OWN buffers in place (same objects) with the next block of measurements
+                    g2 = np.random.Generator(np.random.PCG64(cfg.get("between_seed", 1)))
+                    newd = g2.integers(0, 2, size=data_np.shape).astype(np.float64)
+                    if isinstance(data_in, torch.Tensor):
+                        data_in.copy_(torch.from_numpy(newd).to(data_in.dtype))
+                        data_copy.copy_(data_in)
+                    elif isinstance(data_in, np.ndarray):
+                        data_in[...] = newd
+                        data_copy[...] = newd
+                    else:
+                        for i_, row in enumerate(newd.tolist()):
+                            data_in[i_][:] = row
+                            data_copy[i_][:] = row
+                    data_np[...] = newd
+                    if bases is not None:
+                        perm = g2.permutation(bases.shape[0])
+                        bases[...] = bases[perm]
+                        if not (bases == "Z").all(axis=1).any():
+                            bases[0] = "Z"
+                        bases_copy[...] = bases
+                    run.fault("alias", "refill_data")
+                initial = params_snapshot(state)
                 rng.stream(plan["sub"] + 7919 * fi, mode=cfg.get("rng_mode", "honest"), rare=0.1, perm_mode=cfg.get("perm_mode", "honest"), randint_mode=cfg.get("randint_mode", "honest"))
             fit_faults = plan.get("faults", ()) if fi == 0 else ()
             mutated = {"at": None}
+            bs_snap = {"v": None}
+            cb_steps = []  # optimizer steps as seen through callbacks only (parameters at BS/BE, .grad at BE)
             epoch_of_record = []  # per captured batch: epoch index
             cur_epoch = {"e": None}
 
@@ -129,6 +165,19 @@ def execute(plan, prop):
                     mutated["at"] = (kind, tuple(args))
                 if kind == "TS":
                     rec.armed = True
+                elif kind == "BS":
+                    bs_snap["v"] = {(net, name): p.data.detach().numpy().copy() for net, name, p in rec.named()}
+                elif kind == "BE" and bs_snap["v"] is not None:
+                    cb_steps.append(
+                        {
+                            "lr": [None],
+                            "before": bs_snap["v"],
+                            "after": {(net, name): p.data.detach().numpy().copy() for net, name, p in rec.named()},
+                            "grad": {(net, name): (None if p.grad is None else p.grad.detach().numpy().copy()) for net, name, p in rec.named()},
+                            "n_opt_params": None,
+                        }
+                    )
+                    bs_snap["v"] = None
 
             # ---- reference gradient, computed at the parameters the step will see ----
             refs = []  # parallel to cap.records
@@ -182,8 +231,14 @@ def execute(plan, prop):
             rec = OptRecorder(run, state)
             cap = BatchCapture(run, state, before_batch=before_batch, after_batch=after_batch)
             opt_name = cfg.get("optimizer", "sgd")
-            base_opt = {"sgd": torch.optim.SGD, "sgd_momentum": torch.optim.SGD, "adam": torch.optim.Adam}[opt_name]
+            base_opt = {"sgd": torch.optim.SGD, "sgd_momentum": torch.optim.SGD, "adam": torch.optim.Adam}.get(opt_name)
             opt_args = {"momentum": 0.5} if opt_name == "sgd_momentum" else None
+            if opt_name == "default":
+                opt_cls = None
+            elif opt_name == "sgd_plain":
+                opt_cls = torch.optim.SGD
+            else:
+                opt_cls = recording_optimizer(base_opt, rec)
             sched = sargs = None
             if cfg.get("scheduler") == "step":
                 sched, sargs = recording_scheduler(torch.optim.lr_scheduler.StepLR, rec), {"step_size": 1, "gamma": cfg["gamma"]}
@@ -199,20 +254,21 @@ def execute(plan, prop):
                     n_wit=1,
                     faults=fit_faults,
                     handler=handler,
-                    optimizer=recording_optimizer(base_opt, rec),
+                    optimizer=opt_cls,
                     optimizer_args=opt_args,
                     scheduler=sched,
                     scheduler_args=sargs,
                 )
             rng.listeners.remove(rng_listener)
             seamed = rng.check_global()
-            fits.append(dict(final=params_snapshot(state), info=info, cap=cap, rec=rec, refs=refs, epoch_of_record=epoch_of_record, initial=initial, mutated=mutated, seamed=seamed, sched=sched, opt_name=opt_name, log_start=log_start, log_end=len(run.log.entries)))
+            fits.append(dict(unchanged_after=data_unchanged(), data_np=data_np.copy(), bases_copy=None if bases_copy is None else bases_copy.copy(), cb_steps=cb_steps, final=params_snapshot(state), info=info, cap=cap, rec=rec, refs=refs, epoch_of_record=epoch_of_record, initial=initial, mutated=mutated, seamed=seamed, sched=sched, opt_name=opt_name, log_start=log_start, log_end=len(run.log.entries)))
 
     trace_all = []
     nontrivial_any = False
     for fi, F in enumerate(fits):
         info, cap, rec, refs, epoch_of_record, initial, mutated, seamed, sched, opt_name = (F[k] for k in ("info", "cap", "rec", "refs", "epoch_of_record", "initial", "mutated", "seamed", "sched", "opt_name"))
         log_entries = run.log.entries[F["log_start"] : F["log_end"]]
+        data_np, bases_snap = F["data_np"], F["bases_copy"]  # the caller's data as it was during this run
         if info["raised"] is not None:
             run.lib_exception(info["raised"], "fit", N=N, type=scfg["type"], pos_bs=tc["pos_bs"], neg_bs=tc.get("neg_bs"))
         items, _ = protocol.extract(run, 1, upto=F["log_end"], frm=F["log_start"])
@@ -235,16 +291,16 @@ def execute(plan, prop):
         if judge07 and info["raised"] is None:
             if mutated["at"] is not None:
                 run.violate("7-immutable", f"caller's data or bases changed during training (first seen at {mutated['at']})", form=cfg["data"]["form"])
-            elif not data_unchanged():
+            elif not F["unchanged_after"]:
                 run.violate("7-immutable", "caller's data or bases changed by fit", form=cfg["data"]["form"])
             if captured:
                 def key(row, brow):
                     return tuple(float(x) for x in row) + (tuple(str(b) for b in brow) if brow is not None else ())
 
-                want = sorted(key(data_np[i], None if bases is None else bases_copy[i]) for i in range(N))
+                want = sorted(key(data_np[i], None if bases is None else bases_snap[i]) for i in range(N))
                 zrows = None
                 if bases is not None:
-                    zmask = (bases_copy == "Z").all(axis=1)
+                    zmask = (bases_snap == "Z").all(axis=1)
                     zrows = {tuple(float(x) for x in data_np[i]) for i in range(N) if zmask[i]}
                 allrows = {tuple(float(x) for x in row) for row in data_np}
                 # split records per epoch
@@ -336,7 +392,9 @@ def execute(plan, prop):
         # C06: every step applies exactly the contrastive-divergence update
         # =====================================================================
         if judge06 and info["raised"] is None:
-            steps = rec.steps
+            recording = opt_name not in ("default", "sgd_plain")
+            steps = rec.steps if recording else F["cb_steps"]
+            plain_sgd = opt_name in ("sgd", "default", "sgd_plain")
             names = [(net, name) for net, name, _ in rec.named()]
             # --- call schedule: exactly one optimizer.step between BS and its BE; one scheduler.step per epoch
             seqk = []
@@ -351,7 +409,7 @@ def execute(plan, prop):
             opt_in_batch = 0
             sch_in_epoch = 0
             last_batch_done = False
-            for kx in seqk:
+            for kx in (seqk if recording else [q for q in seqk if q == "__none__"]):
                 if kx == "BS":
                     state_m = "batch"
                     opt_in_batch = 0
@@ -389,14 +447,16 @@ def execute(plan, prop):
                             run.violate("6-continuity", f"step {t}: parameter {k2} changed outside optimizer.step()", t=t)
                             break
                     prev_after = st_["after"]
-                    if st_["n_opt_params"] != len(names):
+                    if st_["n_opt_params"] is not None and st_["n_opt_params"] != len(names):
                         run.violate("6-params", f"optimizer was given {st_['n_opt_params']} parameters, the state has {len(names)}")
                     # learning rate schedule
                     if sched is not None and ep is not None:
                         want_lr = lr0 * gamma ** (ep - tc["starting_epoch"])
                     else:
                         want_lr = lr0
-                    if not close(st_["lr"][0], want_lr, 1e-12):
+                    if st_["lr"][0] is None:
+                        st_["lr"][0] = want_lr  # not observable without a recording optimizer: the SGD rule below uses the scheduled rate
+                    elif not close(st_["lr"][0], want_lr, 1e-12):
                         run.violate("6-sched", f"step {t} (epoch {ep}): learning rate {st_['lr'][0]!r}, expected {want_lr!r}", scheduler=cfg.get("scheduler"))
                     if ref is None or ref["err"] is not None or ref["pos"] is None:
                         run.inconclusive["reference_gradient"] += 1
@@ -458,7 +518,7 @@ def execute(plan, prop):
                                 )
                                 ok_step = False
                             # plain SGD arithmetic
-                            if opt_name == "sgd" and got.shape == st_["before"][(net, name)].shape:
+                            if plain_sgd and got.shape == st_["before"][(net, name)].shape:
                                 want_after = st_["before"][(net, name)] - st_["lr"][0] * got
                                 a = st_["after"][(net, name)]
                                 tol2 = 1e-12 * max(1.0, float(np.nanmax(np.abs(want_after))) if want_after.size else 1.0)
